@@ -5,6 +5,15 @@ V = os.path.dirname(os.path.dirname(os.path.abspath(__file__)))
 
 # id -> (category, technique, text, note, design_ref)
 CHECKS = {
+ "C04": ("exploration", "runtime monitor: differential executions of the real iterator over scripted Read sources (short-read schedules, capacities, poisoned buffer tails, temporary EOFs) against the whole-slice parse",
+         "The same bytes and configuration are parsed from a slice (baseline) and through scripted sources that vary the initial capacity (0..>len), the partition of the input into read() results (all 2^(n-1) partitions for inputs <= 9/12 bytes, random beyond), the garbage written behind delivered bytes, and — with EOF closing disabled — temporary Ok(0) reads at subsets of tag boundaries; (item, offset) sequences and the first error with all fields must be identical.",
+         "one open known finding: a pause while a buffered (Full) master is being collected (known_findings.json C04/pause/inside-buffered-master); inputs <= ~6 KB for the variant matrix", "DESIGN.md §5 C04"),
+ "C05": ("exploration", "runtime monitor: catch_unwind + logical step budget (hook H1) + source read budget around every API call on hostile inputs/configurations; I/O fault injection at read indices",
+         "Valid, truncated, mutated, adversarial-header, random and mid-document streams are parsed under random configurations (8 tolerance subsets, buffered subsets, capacities incl. tiny, size limits, EOF closing) through scripted short-read sources with random interleavings of next()/try_recover(); every call must return within the step/read budgets without panicking (overflow checks on), item counts stay linear, None is sticky once the source is exhausted, total work stays linear; injected source errors must come back as ReadError carrying kind and message with the preceding items a prefix of the fault-free parse.",
+         "no-hang is decided for loops carrying the H1 tick or touching the source; default 4 GB limit only used with valid documents and without gratuitous try_recover", "DESIGN.md §5 C05"),
+ "C11": ("exploration", "runtime monitor: real TagWriter / strict TagIterator verdicts for every (chain of open masters, element) pair of runtime-generated specifications compared with a reference path-pattern matcher",
+         "For zoo and random specifications (random forests, trailing and intermediate global placeholders with random bounds) random valid chains are sampled and, for each, EVERY element is offered to a fresh real writer (Ok <=> reference match; rejection must be UnexpectedTag with the id; masters also via the unknown-size option) and rendered by the reference encoder for the real strict reader (emitted <=> reference match against the chain remaining after closing the unknown-size masters it ends; otherwise HierarchyError with the id).",
+         "reference semantics = spec.rs::ref_path_match/ref_closes; ambiguous closing-and-valid-child pairs skipped (counted)", "DESIGN.md §5 C11"),
  "C01": ("exploration", "runtime monitor: real TagWriter -> real strict TagIterator round trip over random specifications/trees/options, structural comparison with the generated tree",
          "Random specifications (zoo + generated: ids of 1-8 bytes, depth <=6, global elements) x random conformant trees x boundary-lattice payloads x per-element options (default / width 1-8 / unknown / Full / deprecated call) x masters padded to content sizes 126-128 and 16382-16384 x empty last elements are written by the real writer and read back by the real strict iterator; the item sequence must equal the flattened tree (floats by bits) with no error. Held = all executed round trips agreed.",
          "tree generator conformance is defined by the harness reference path matcher; cases the writer rejects are vacuous (counted); payloads <= 20 KB, trees <= 160 elements", "DESIGN.md §5 C01"),
